@@ -134,7 +134,22 @@ func hWF(ms *Modules) []hNode {
 			}
 		}
 	}
-	for _, k := range hModuleNames(ms) {
+	// every loaded module, older revisions included (each module object once, under its first key)
+	seenMod := map[*Module]bool{}
+	var keys []string
+	for k := range ms.Modules {
+		keys = append(keys, k)
+	}
+	for i := 1; i < len(keys); i++ {
+		for j := i; j > 0 && keys[j] < keys[j-1]; j-- {
+			keys[j], keys[j-1] = keys[j-1], keys[j]
+		}
+	}
+	for _, k := range keys {
+		if seenMod[ms.Modules[k]] {
+			continue
+		}
+		seenMod[ms.Modules[k]] = true
 		e := ToEntry(ms.Modules[k])
 		check(len(e.Errors) == 0, "C04: no module entry of a cleanly processed set carries a recorded error")
 		check(len(e.Augments) == 0, "C04: no augment is left unapplied")
